@@ -246,3 +246,22 @@ check('C10', 'E4/fault', 'fault_enumeration',
       'waiting observed through the abort-event wait / asyncio.wait_for '
       'only; random.random replaced by constants.',
       'DESIGN.md 6/C10')
+
+check('C07', 'E1', 'model_checking',
+      'differential explicit-state BFS: cluster of real servers vs one real '
+      'server, plus a depth-bounded BFS with free per-host consumption',
+      'Immediate mode: the same operations (connect, DISCONNECT, '
+      'server.disconnect / enter / leave / close via every host, emits with '
+      'up to two outstanding callbacks acknowledged in either order, loss) '
+      'are applied in lockstep to a cluster of 2 (quick) / 2-4 (thorough) '
+      'real servers with PubSubManager / AsyncPubSubManager on a pickled '
+      'FIFO channel and to one real server with a plain manager, to closure '
+      'over all membership states and placements; at every state every '
+      'emit(to, skip_sid, via each host or a write-only manager) is '
+      'compared frame by frame. Delayed mode: consume(host) interleaves '
+      'freely with the operations (depth 5/7, channel <= 2/3): at-most-once, '
+      'eligibility within the in-flight window, exactness when no '
+      'membership change raced, callbacks once and only for their own ack.',
+      'one FIFO log with a cursor per host models the broker; session ids '
+      'and ack-id values are normalised; delayed mode is depth-bounded.',
+      'DESIGN.md 6/C07')
